@@ -13,12 +13,22 @@ package main
 // of coq/B/Blocking.v must allow the observed outcome: a schedule built from the observation is
 // executed by the model and its final observation compared) and one case per snapshot digest
 // (the proved invariant's numeric bounds evaluated on what the real counters showed).
+//
+// l0-full runs (scL0Full): the class "a public call made while level 0 is at its stall limit".
+// Level 0 is filled to NumLevelZeroTablesStall by open/commit/close cycles; on the freshly opened
+// DB (compactors still in their random start delay) a non-empty memtable is left and DropPrefix /
+// DropAll / Flatten / Close / a commit burst / Backup+Stream is called under the watchdog. A call
+// that does not return is `c38-<api>-does-not-return-with-full-l0` with the dump (root cause named:
+// who sits in addLevel0Table's stall loop, how many runCompactor goroutines exist). For calls that
+// return, the order of the hook events around addLevel0Table and of the level-0 compactions is
+// replayed in the model (c38EmitL0Full).
 
 import (
 	"context"
 	"encoding/json"
 	"errors"
 	"fmt"
+	"io"
 	"math/rand"
 	"os"
 	"os/exec"
@@ -97,6 +107,33 @@ type c38Result struct {
 	CloseReturned int                       `json:"close_returned"`
 	Orphans       int                       `json:"orphans_in_writech_after_close"`
 	Hooks         bool                      `json:"hooks"`
+	L0Full        []*c38L0Trial             `json:"l0full,omitempty"`
+}
+
+// c38Ev is one hook event seen during an l0-full trial (existing hook points only).
+type c38Ev struct {
+	K   string `json:"k"`   // flush.table | flush.manifest (after addLevel0Table returned) | l0c.def | l0c.done
+	Own bool   `json:"own"` // fired on the goroutine of the public call under test
+	D   int    `json:"d"`   // l0c.def: tables picked from level 0; l0c.done: net number of tables level 0 lost
+	L0  int    `json:"l0"`  // racy len(level 0) at the hook
+	Ms  int64  `json:"ms"`
+}
+
+// c38L0Trial: one public call made while level 0 holds NumLevelZeroTablesStall tables.
+type c38L0Trial struct {
+	API      string  `json:"api"`
+	Writers  bool    `json:"writers"`  // committers run concurrently with the call
+	Stall    int     `json:"stall"`
+	Attempts int     `json:"attempts"` // open/write/close cycles needed
+	Reached  bool    `json:"reached"`  // level 0 was at the stall limit right before the call
+	L0Before int     `json:"l0_before"`
+	Mark     int     `json:"mark"` // Events[Mark:] happened after that check
+	Events   []c38Ev `json:"events"`
+	Started  bool    `json:"started"`
+	Returned bool    `json:"returned"`
+	Err      string  `json:"err"`
+	Ms       int64   `json:"ms"`
+	PostOK   bool    `json:"post_ok"` // a commit after the call returned nil
 }
 
 type c38Active struct {
@@ -917,6 +954,254 @@ func (e *c38Env) scDropForced() {
 	e.closeDB(db)
 }
 
+
+// ---- l0-full: public calls made while level 0 is at its stall limit ----
+
+var c38L0APIs = []string{"DropPrefix", "DropAll", "Flatten", "Close", "Update-burst", "Backup+Stream"}
+
+func (e *c38Env) openKeep(dir string) *badger.DB {
+	os.MkdirAll(dir, 0o755)
+	var db *badger.DB
+	err := e.call("Open", func() error {
+		var err error
+		db, err = badger.Open(e.opts(dir))
+		return err
+	})
+	if err != nil {
+		e.note("open: %v", err)
+		e.writeResult()
+		os.Exit(4)
+	}
+	e.closed.Store(0)
+	e.db.Store(db)
+	return db
+}
+
+func (e *c38Env) l0Len() int {
+	if db := e.db.Load(); db != nil {
+		return db.VerifBlockingSnapshotNoLock().L0
+	}
+	return -1
+}
+
+// l0Hooks records, through the EXISTING hook points, the order of: a memtable flush reaching
+// addLevel0Table (persist.flush.table fires right before it, persist.flush.manifest right after
+// it returned) and level-0 compactions (CompactDef / persist.compact.installed).
+func (e *c38Env) l0Hooks(cur *atomic.Pointer[c38L0Trial], apiGid *atomic.Uint64) {
+	type pend struct {
+		l0        bool
+		top, next int
+		nw        int
+	}
+	var hm sync.Mutex
+	pends := map[uint64]*pend{}
+	t0 := time.Now()
+	add := func(k string, own bool, d int) {
+		tr := cur.Load()
+		if tr == nil {
+			return
+		}
+		l0 := e.l0Len()
+		e.mu.Lock()
+		if len(tr.Events) < 300 {
+			tr.Events = append(tr.Events, c38Ev{K: k, Own: own, D: d, L0: l0, Ms: time.Since(t0).Milliseconds()})
+		}
+		e.mu.Unlock()
+	}
+	badger.VerifSetController(&badger.VerifController{
+		Point: func(name string, args ...uint64) {
+			switch name {
+			case "persist.flush.table":
+				add("flush.table", c38Gid() == apiGid.Load(), 0)
+			case "persist.flush.manifest":
+				add("flush.manifest", c38Gid() == apiGid.Load(), 0)
+			case "persist.compact.installed":
+				g := c38Gid()
+				hm.Lock()
+				p := pends[g]
+				delete(pends, g)
+				hm.Unlock()
+				if p != nil && p.l0 {
+					d := p.top
+					if p.next == 0 {
+						d -= p.nw // L0->L0: the new table(s) stay in level 0
+					}
+					add("l0c.done", g == apiGid.Load(), d)
+				}
+			}
+		},
+		CompactDef: func(info *badger.VerifCompactInfo) {
+			g := c38Gid()
+			hm.Lock()
+			pends[g] = &pend{l0: info.ThisLevel == 0, top: len(info.Top), next: info.NextLevel}
+			hm.Unlock()
+			if info.ThisLevel == 0 {
+				add("l0c.def", g == apiGid.Load(), len(info.Top))
+			}
+		},
+		NewTables: func(info *badger.VerifCompactInfo) {
+			g := c38Gid()
+			hm.Lock()
+			if p := pends[g]; p != nil {
+				p.nw = len(info.New)
+			}
+			hm.Unlock()
+		},
+	})
+}
+
+// buildFullL0 leaves level 0 with NumLevelZeroTablesStall tables and a non-empty memtable on a
+// freshly opened DB: every open / one small commit / close cycle adds one table (Close flushes
+// the memtable; the compactors of a fresh DB start after a random delay of up to 1 s, so short
+// sessions see no compaction; when one does run, the cycle simply goes on).
+func (e *c38Env) buildFullL0(dir string, tr *c38L0Trial) *badger.DB {
+	stall := e.pi("stall", 2)
+	for i := 0; i < 80; i++ {
+		db := e.openKeep(dir)
+		e.mu.Lock()
+		tr.Attempts = i + 1
+		tr.Events = tr.Events[:0]
+		e.mu.Unlock()
+		full := e.l0Len() >= stall
+		e.call("Update", func() error {
+			return db.Update(func(txn *badger.Txn) error {
+				if err := txn.Set([]byte(fmt.Sprintf("k00/fill-%04d", i)), []byte("drop-me")); err != nil {
+					return err
+				}
+				return txn.Set([]byte(fmt.Sprintf("k01/keep-%04d", i)), []byte("keep-me"))
+			})
+		})
+		if n := e.l0Len(); full && n >= stall {
+			e.mu.Lock()
+			tr.Reached, tr.L0Before, tr.Mark = true, n, len(tr.Events)
+			e.mu.Unlock()
+			return db
+		}
+		e.closeDB(db)
+	}
+	return nil
+}
+
+func (e *c38Env) scL0Full() {
+	api := e.pi("api", 0) % len(c38L0APIs)
+	var cur atomic.Pointer[c38L0Trial]
+	var apiGid atomic.Uint64
+	e.l0Hooks(&cur, &apiGid)
+	defer badger.VerifSetController(nil)
+	e.mu.Lock()
+	e.res.Hooks = true
+	e.mu.Unlock()
+	for t := 0; t < e.spec.Trials; t++ {
+		dir := filepath.Join(e.spec.Dir, fmt.Sprintf("db%d", t))
+		os.RemoveAll(dir)
+		tr := &c38L0Trial{API: c38L0APIs[api], Stall: e.pi("stall", 2)}
+		tr.Writers = t%2 == 1 && api != 3
+		e.mu.Lock()
+		e.res.L0Full = append(e.res.L0Full, tr)
+		e.mu.Unlock()
+		apiGid.Store(0)
+		cur.Store(tr)
+		db := e.buildFullL0(dir, tr)
+		if db == nil {
+			e.note("l0-full: level 0 never reached the stall limit")
+			cur.Store(nil)
+			continue
+		}
+		stop := make(chan struct{})
+		var wg sync.WaitGroup
+		nw, nset, vlen := 0, 2, 100
+		if tr.Writers {
+			nw = 3
+		}
+		if api == 2 || api == 5 { // Flatten / Backup+Stream: the writers fill memtables, the flusher stalls
+			nset, vlen = 8, 900
+		}
+		for w := 0; w < nw; w++ {
+			wg.Add(1)
+			go func(w int) { defer wg.Done(); e.writer(db, w, stop, nset, vlen, false) }(w)
+		}
+		done := make(chan error, 1)
+		t0 := time.Now()
+		e.mu.Lock()
+		tr.Started = true
+		e.mu.Unlock()
+		go func() {
+			apiGid.Store(c38Gid())
+			var err error
+			switch api {
+			case 0:
+				err = e.call("DropPrefix", func() error { return db.DropPrefix([]byte("k00/")) })
+			case 1:
+				err = e.call("DropAll", func() error { return db.DropAll() })
+			case 2:
+				err = e.call("Flatten", func() error { return db.Flatten(2) })
+			case 3:
+				err = e.closeDB(db)
+			case 4:
+				// a burst that fills about a dozen memtables: every flush has to wait for a compaction
+				var bw sync.WaitGroup
+				for w := 0; w < 4; w++ {
+					bw.Add(1)
+					go func(w int) {
+						defer bw.Done()
+						val := make([]byte, 900) // below the value threshold: the values fill the memtables
+						for i := 0; i < e.pi("burst", 24); i++ {
+							e.call("Update", func() error {
+								return db.Update(func(txn *badger.Txn) error {
+									for j := 0; j < 8; j++ { // 7 KB per transaction: below maxBatchSize (15% of the memtable)
+										if err := txn.Set(c38Key(20+w, i, j), val); err != nil {
+											return err
+										}
+									}
+									return nil
+								})
+							})
+						}
+					}(w)
+				}
+				bw.Wait()
+			case 5:
+				err = e.call("Backup", func() error { _, err := db.Backup(io.Discard, 0); return err })
+				if err == nil {
+					err = e.call("Stream.Orchestrate", func() error {
+						st := db.NewStream()
+						st.NumGo = 2
+						st.Send = func(buf *z.Buffer) error { return nil }
+						return st.Orchestrate(context.Background())
+					})
+				}
+			}
+			done <- err
+		}()
+		err := <-done
+		cur.Store(nil) // the events of the call under test only
+		e.mu.Lock()
+		tr.Returned, tr.Err, tr.Ms = true, c38ErrClass(err), time.Since(t0).Milliseconds()
+		e.mu.Unlock()
+		close(stop)
+		c38Wait(&wg)
+		if api != 3 {
+			// the DB is usable afterwards: a commit and a read return, then Close
+			perr := e.call("Update", func() error {
+				return db.Update(func(txn *badger.Txn) error { return txn.Set([]byte("k01/after"), []byte("v")) })
+			})
+			e.call("View+Get", func() error {
+				return db.View(func(txn *badger.Txn) error { _, err := txn.Get([]byte("k01/after")); return err })
+			})
+			e.mu.Lock()
+			tr.PostOK = perr == nil
+			e.mu.Unlock()
+			e.closeDB(db)
+		}
+		cur.Store(nil)
+		e.mu.Lock()
+		e.res.Trials++
+		e.mu.Unlock()
+		e.writeResult()
+		os.RemoveAll(dir)
+	}
+}
+
 func (e *c38Env) run() {
 	switch e.spec.Scenario {
 	case "stall":
@@ -939,6 +1224,8 @@ func (e *c38Env) run() {
 		e.scF14Forced()
 	case "drop-forced":
 		e.scDropForced()
+	case "l0-full":
+		e.scL0Full()
 	default:
 		e.note("unknown scenario %q", e.spec.Scenario)
 	}
@@ -1120,10 +1407,44 @@ func c38Classify(r *c38Run) (sig, what string, evidence map[string]interface{}) 
 			}
 			return false
 		}
+		// a goroutine is stuck INSIDE a watermark call (WaitForMark, or Begin/Done sending to the channel of
+		// the stopped process goroutine); the ever-present (*WaterMark).process goroutines do not count
+		wmStuck := func() bool {
+			blocks := strings.Split(dump, "\n\n")
+			for _, x := range r.Res.Hung {
+				blocks = append(blocks, x.Stack)
+			}
+			for _, x := range blocks {
+				if strings.Contains(strings.ReplaceAll(x, "(*WaterMark).process", ""), "(*WaterMark).") {
+					return true
+				}
+			}
+			return false
+		}
+		if r.Spec.Scenario == "l0-full" {
+			// a public call made while level 0 held NumLevelZeroTablesStall tables did not return
+			// (the Closes counted in CloseStarted belong to earlier sessions on the same directory)
+			ev["l0full"] = r.Res.L0Full
+			if anyStack("filterPrefixesToDrop", "(*WaterMark).WaitForMark") && anyStack("(*request).Wait") && !writerAlive {
+				return "c38-dropprefix-racing-commit-deadlocks", "DropPrefix and a commit wait for each other (see F29b); level 0 was at its stall limit", ev
+			}
+			api := strings.ToLower(strings.NewReplacer(".", "-", "+", "-").Replace(h.API))
+			ncomp := strings.Count(dump, "(*levelsController).runCompactor(")
+			where := "no goroutine is in addLevel0Table"
+			switch {
+			case anyStack("(*levelsController).addLevel0Table", "(*DB).DropPrefix"):
+				where = "DropPrefix -> handleMemTableFlush -> addLevel0Table sits in the level-0 stall loop (under db.lock, writes blocked)"
+			case anyStack("(*levelsController).addLevel0Table", "(*DB).flushMemtable"):
+				where = "flushMemtable -> handleMemTableFlush -> addLevel0Table sits in the level-0 stall loop"
+			case anyStack("(*levelsController).addLevel0Table"):
+				where = "a goroutine sits in addLevel0Table's level-0 stall loop"
+			}
+			return "c38-" + api + "-does-not-return-with-full-l0", fmt.Sprintf("%s, called with level 0 at its stall limit, did not return within %d ms: %s; %d runCompactor goroutine(s) exist (only a running compactor can make room in level 0); goroutine dump attached", h.API, h.ElapsedMs, where, ncomp), ev
+		}
 		switch {
 		case r.Res.CloseStarted == 0 && anyStack("filterPrefixesToDrop", "(*WaterMark).WaitForMark") && anyStack("(*request).Wait") && !writerAlive:
 			return "c38-dropprefix-racing-commit-deadlocks", "DropPrefix and a commit wait for each other: the commit passed the blockWrites check before DropPrefix blocked writes and its request sits in writeCh with no doWrites goroutine (restarted only when DropPrefix returns), while DropPrefix's filterPrefixesToDrop -> db.View -> readTs waits for that commit's timestamp", ev
-		case r.Res.CloseStarted > 0 && anyStack("(*WaterMark).") && !strings.Contains(st, "(*request).Wait"):
+		case r.Res.CloseStarted > 0 && wmStuck() && !strings.Contains(st, "(*request).Wait"):
 			return "c38-newtransaction-racing-close-hangs", h.API + " never returned: Close's orc.Stop() ended the watermark goroutine; a call is stuck in WaitForMark / sending to the dead goroutine's channel (and, if it holds the oracle locks, every other commit behind it)", ev
 		case strings.Contains(st, "(*request).Wait") && !writerAlive && r.Res.CloseStarted > 0:
 			return "F14-commit-racing-close-hangs-or-panics", fmt.Sprintf("%s never returned: its request was sent on db.writeCh after doWrites' last look at the channel (no doWrites goroutine exists, %d request(s) left in writeCh), so req.Wait() blocks forever", h.API, r.Res.Orphans), ev
@@ -1180,7 +1501,11 @@ func c38Plans(c *Ctx) []c38Plan {
 	r := c.Rng
 	pick := func(xs ...int) int { return xs[r.Intn(len(xs))] }
 	mk := func(i int) []c38Plan {
+		l0p := func(api int) c38Plan {
+			return c38Plan{"l0-full", 0, 2, map[string]int{"api": api, "mem": 64 << 10, "nmem": 2, "vt": 1024, "l0": 1, "stall": pick(2, 2, 3), "compactors": pick(2, 2, 3), "burst": 24}}
+		}
 		return []c38Plan{
+			l0p(0), l0p(1), l0p(2), l0p(3), l0p(4), l0p(5),
 			{"drop-forced", 0, 1, map[string]int{"holdms": 300}},
 			{"f14-forced", 0, 1, map[string]int{"flavour": 0}},
 			{"f14-forced", 0, 1, map[string]int{"flavour": 1}},
@@ -1229,6 +1554,14 @@ func runC38(c *Ctx) error {
 			}
 			if p.name == "drop-forced" {
 				spec.DeadlineMs = 8000 // forced schedule: the dump shows the wait cycle
+			}
+			if p.name == "l0-full" {
+				// each call normally takes at most ~1-2 s (the compactors' start delay); a caller stuck in the
+				// stall loop polls every 10 ms for ever: dump and end the process early
+				spec.DeadlineMs = 25000
+				if p.p["api"] <= 3 {
+					spec.DeadlineMs = 15000 // DropPrefix, DropAll, Flatten, Close
+				}
 			}
 			runs[i] = c38RunChild(c, i, spec, 240*time.Second)
 		}(i, p)
@@ -1456,6 +1789,10 @@ func c38EmitCases(c *Ctx, r *c38Run, sig string) {
 	if !res.Completed {
 		return
 	}
+	if r.Spec.Scenario == "l0-full" {
+		c38EmitL0Full(c, r, s, fillsets, emit)
+		return
+	}
 	for v := 0; v < 6; v++ {
 		fills := fillsets[(v+int(r.Spec.Seed))%len(fillsets)]
 		p := &c38Prog{}
@@ -1598,5 +1935,209 @@ func c38EmitCases(c *Ctx, r *c38Run, sig string) {
 			return
 		}
 		emit(r.Spec.Scenario, true, p, e, v)
+	}
+}
+
+// ---------------------------------------------------------------------------------------------
+// l0-full: the observed order of hook events against the model's accepted traces
+// ---------------------------------------------------------------------------------------------
+
+func (p *c38Prog) any(ls ...string) { p.ins = append(p.ins, "Any "+ListOf(ls)) }
+
+// l0FullPrefix drives the model into the state of a freshly opened DB whose level 0 holds s
+// tables: compactors idle (none has had a run), writer and flusher idle, a small non-empty
+// memtable. (The model has no re-Open; the open/commit/close cycles that built the tables on the
+// real DB are s+1 commits here, s of which fill a memtable that is flushed.)
+func (p *c38Prog) l0FullPrefix(s int) (acked int) {
+	one := func() { p.send(); p.do("W_recv", "W_push") }
+	one()
+	p.do("(J_write true)", "J_done")
+	acked++
+	for i := 1; i <= s; i++ {
+		one()
+		p.do("J_rotate")
+		if i < s {
+			p.do("(J_write true)")
+		} else {
+			p.do("(J_write false)")
+		}
+		p.do("J_done", "F_take", "F_add")
+		acked++
+	}
+	return acked
+}
+
+// l0Events turns the hook events of one call into model instructions, in the observed order:
+//   flush.table of the waiter (its table is built, addLevel0Table comes next): with the model's
+//     level 0 at the stall limit the waiter's label must be DISABLED (Not);
+//   l0c.done (a level-0 compaction was installed, level 0 lost d tables): some compactor picks
+//     level 0 and finishes (Any: which worker is not observable);
+//   flush.manifest of the waiter (addLevel0Table returned): the waiter's label (Do).
+// A hook fires AFTER the effect it reports: when the waiter's flush.manifest is logged while the
+// model's level 0 is still full, the compaction that made room has been installed but not yet
+// logged; it is the next l0c.done and is taken first.
+func (p *c38Prog) l0Events(evs []c38Ev, s int, l0m *int, waiter string, own bool, takeFirst string) (waited, flushed, ok bool) {
+	used := make([]bool, len(evs))
+	compact := func(d int) {
+		p.any("K0_startL0", "KO_startL0")
+		p.any(fmt.Sprintf("(K0_finishL0 %d)", d), fmt.Sprintf("(KO_finishL0 %d)", d))
+		*l0m -= d
+	}
+	pending := false
+	for i, ev := range evs {
+		switch ev.K {
+		case "flush.table":
+			if ev.Own != own || pending {
+				return waited, flushed, false
+			}
+			if takeFirst != "" {
+				p.do(takeFirst)
+			}
+			if *l0m >= s && ev.L0 >= s {
+				// level 0 is full in the model and was seen full on the real DB: the waiter must wait
+				p.not(waiter)
+				waited = true
+			}
+			pending = true
+		case "l0c.done":
+			if ev.Own {
+				continue // DropPrefix's own dropPrefixes compaction of level 0: part of the drop (D_do)
+			}
+			if !used[i] && ev.D >= 1 {
+				used[i] = true
+				compact(ev.D)
+			}
+		case "flush.manifest":
+			if ev.Own != own || !pending {
+				return waited, flushed, false
+			}
+			if *l0m >= s {
+				for j := i + 1; j < len(evs); j++ {
+					if evs[j].K == "l0c.done" && !evs[j].Own && !used[j] && evs[j].D >= 1 {
+						used[j] = true
+						compact(evs[j].D)
+						break
+					}
+				}
+			}
+			p.do(waiter)
+			*l0m++
+			pending, flushed = false, true
+		}
+	}
+	return waited, flushed, !pending
+}
+
+func c38EmitL0Full(c *Ctx, r *c38Run, s int, fillsets [][]bool, emit func(kind string, strict bool, p *c38Prog, e c38Exp, variant int)) {
+	res := &r.Res
+	blkC := c38Sum(res.Calls["Update"], "ErrBlockedWrites")
+	for ti, tr := range res.L0Full {
+		if tr == nil || !tr.Reached {
+			c.Count("l0full:not-reached")
+			continue
+		}
+		c.Count("l0full:reached:" + tr.API)
+		if !tr.Returned {
+			continue
+		}
+		evs := tr.Events
+		if tr.Mark <= len(evs) {
+			evs = evs[tr.Mark:]
+		}
+		for v := 0; v < 2; v++ {
+			fills := fillsets[(v+ti+int(r.Spec.Seed))%len(fillsets)]
+			p := &c38Prog{}
+			e := c38Exp{}
+			e.ok = p.l0FullPrefix(s)
+			l0m := s
+			ordered := true
+			waited := false
+			switch tr.API {
+			case "DropPrefix", "DropAll":
+				pfx := tr.API == "DropPrefix"
+				if pfx {
+					p.do("(E_drop true)")
+				} else {
+					p.do("(E_drop false)")
+				}
+				if tr.Writers && blkC > 0 && v == 1 {
+					p.do("E_commit", "L_acq", "H_ts", "H_check") // a committer finds writes blocked
+					e.blk = 1
+				}
+				p.do("D_sig", "W_sig", "W_default", "W_final", "J_done", "D_waitw", "D_default", "J_done", "D_stopf", "F_exit", "D_waitf")
+				if pfx {
+					p.do("D_view")
+					q := &c38Prog{}
+					l0q := l0m
+					w, _, ok := q.l0Events(evs, s, &l0q, "D_flushmt", true, "")
+					if ok {
+						p.ins = append(p.ins, q.ins...)
+						l0m, waited = l0q, w
+					} else {
+						ordered = false
+					}
+				} else {
+					p.do("D_noview", "D_skipmt") // DropAll throws the memtable away: no flush, no stall
+					for _, ev := range evs {
+						if ev.K == "flush.table" || ev.K == "flush.manifest" {
+							ordered = false // DropAll flushed a memtable?
+						}
+					}
+					if ordered {
+						q := &c38Prog{}
+						q.l0Events(evs, s, &l0m, "", false, "")
+						p.ins = append(p.ins, q.ins...)
+					}
+				}
+				p.runQ(fills)
+				e.drop = 1
+				if tr.PostOK {
+					p.send()
+					p.runQ(fills)
+					e.ok++
+				}
+				p.do("E_close")
+				p.runQ(fills)
+				e.closed = true
+			case "Close":
+				p.do("E_close", "C_gc", "C_sig", "W_sig", "W_default", "W_final", "J_done", "C_waitw", "C_closech", "C_mt", "C_stopf")
+				q := &c38Prog{}
+				l0q := l0m
+				w, _, ok := q.l0Events(evs, s, &l0q, "F_add", false, "F_take")
+				if ok {
+					p.ins = append(p.ins, q.ins...)
+					l0m, waited = l0q, w
+				} else {
+					ordered = false
+				}
+				p.runQ(fills)
+				e.closed = true
+			default: // Flatten, Update-burst, Backup+Stream: committers against a full level 0
+				a := 4 + v + c.Rng.Intn(4)
+				for i := 0; i < a; i++ {
+					p.send()
+					if i%3 == 2 {
+						p.run(1+c.Rng.Intn(9), []bool{true})
+					}
+				}
+				p.runQ([]bool{true, v == 0})
+				e.ok += a
+				if tr.PostOK {
+					p.send()
+					p.runQ(fills)
+					e.ok++
+				}
+				p.do("E_close")
+				p.runQ(fills)
+				e.closed = true
+			}
+			if waited {
+				c.Count("l0full:stall-wait-observed:" + tr.API)
+			}
+			if !ordered {
+				c.Count("l0full:events-not-ordered:" + tr.API)
+			}
+			emit("l0-full:"+tr.API, true, p, e, v+2*ti)
+		}
 	}
 }
